@@ -478,6 +478,7 @@ def gen_latency_script(rng, nhosts=None):
     steps = [WARMUP()]
     glob = [cfg["min_ms"], cfg["max_ms"]]
     per = {}
+    noops = rng.random() < 0.4
     nsteps = rng.randrange(6, 14)
     for k in range(nsteps):
         ctl, hosts = [], {}
@@ -504,6 +505,16 @@ def gen_latency_script(rng, nhosts=None):
         if rng.random() < 0.2:
             ctl.append(["links"])
         rand_sends(rng, n, ids, hosts, [0, 1, 2, 4, 6])
+        if noops and rng.random() < 0.35:
+            # calls that mean nothing on a healthy link (nothing is held, nothing is partitioned): no-ops
+            a, b = rng.sample(range(n), 2)
+            call = [rng.choice(["release", "release", "repair", "repair_oneway"]),
+                    rand_sel_or_set(rng, a, n, 0.4), rand_sel_or_set(rng, b, n, 0.4)]
+            if rng.random() < 0.6:
+                ctl.append(call)
+            else:
+                lst = hosts.setdefault(str(rng.randrange(n)), [])
+                lst.insert(rng.randrange(len(lst) + 1), call)
         steps.append({"ctl": ctl, "hosts": hosts})
     for _ in range(60000 // cfg["tick_us"] + 3):
         steps.append({"ctl": [], "hosts": {}})
